@@ -107,7 +107,7 @@ func planJSON(line string) {
 	}
 	if len(line) > 0 {
 		c0 := line[0]
-		vAssume(c0 == '{' || c0 == ' ' || c0 == '\t' || c0 == '\r' || c0 == '\n')
+		vAssume(vAnyOf(c0 == '{', c0 == ' ', c0 == '\t', c0 == '\r', c0 == '\n'))
 	} else {
 		vAssume(false)
 	}
@@ -238,7 +238,7 @@ func harnessC10() {
 	vAssert(len(recs) >= 1, "C10: a log record is emitted for the line")
 	r := recs[0]
 	switch {
-	case jsKind == 1 && !tsBad && jsTS != 2 && jsMsg == 1 && jsLvl == 1 && (jsLevel == "trace" || jsLevel == "debug" || jsLevel == "info" || jsLevel == "warn" || jsLevel == "error"):
+	case jsKind == 1 && !tsBad && jsTS != 2 && jsMsg == 1 && jsLvl == 1 && vAnyOf(jsLevel == "trace", jsLevel == "debug", jsLevel == "info", jsLevel == "warn", jsLevel == "error"):
 		vCover("hclog-json")
 		vAssert(r.level == jsLevel, "C10: hclog JSON record is logged at its own level")
 		vAssert(r.msg == jsMessage, "C10: hclog JSON record carries its message")
@@ -311,7 +311,7 @@ func harnessC10two() {
 	first := recs[0]
 	inPanic := len(L0)+1 <= B && first.level == "error" && vPrefix(L0, "panic:")
 	switch {
-	case jsKind == 1 && !tsBad && jsTS != 2 && jsMsg == 1 && jsLvl == 1 && (jsLevel == "trace" || jsLevel == "debug" || jsLevel == "info" || jsLevel == "warn" || jsLevel == "error"):
+	case jsKind == 1 && !tsBad && jsTS != 2 && jsMsg == 1 && jsLvl == 1 && vAnyOf(jsLevel == "trace", jsLevel == "debug", jsLevel == "info", jsLevel == "warn", jsLevel == "error"):
 		vCover("hclog-json")
 		vAssert(r.level == jsLevel, "C10: hclog JSON record is logged at its own level (after any first line)")
 		vAssert(r.msg == jsMessage, "C10: hclog JSON record carries its message (after any first line)")
